@@ -102,9 +102,12 @@ pub(super) fn handle_prev_state<'i>(
             let call_id = call_id.to_string();
             match exec_ctx.call_results.remove(&call_id) {
                 Some(call_result) => {
+                    // a request of this peer recorded at a call whose arguments aren't resolved yet
+                    // can't come from an honest execution
+                    let argument_hash = known_argument_hash(argument_hash)?.clone();
                     update_state_with_service_result(
                         tetraplet.clone(),
-                        argument_hash.expect("Result for joinable error").clone(),
+                        argument_hash,
                         output,
                         call_result,
                         exec_ctx,
